@@ -132,9 +132,15 @@ def run(ctx: Ctx):
                 pol = nf.polarity(leaf.cmp()[0].to_sym())
                 exp = lit.expected_signs()
                 wrong = {k: sorted(v) for k, v in pol.items() if k in exp and not ((v - {0}) <= exp[k])}
+                # an instance quantity the reference constraint does not contain shifts what the checker accepts (either way is wrong)
+                foreign = {k: sorted(v) for k, v in pol.items() if k not in exp and (v - {0})}
+                exp = dict(exp)
+                for k, v in foreign.items():
+                    wrong[k] = v
+                    exp[k] = set()
                 ctx.ob("C06.k", inst + ":term-signs", not wrong, sl.where,
                        f"{show_leaf(leaf)}: " + ("every term enters with the reference sign" if not wrong else
-                                                 "; ".join(f"`{k}` enters with sign(s) {v}, the constraint needs {sorted(exp[k])}" for k, v in wrong.items())),
+                                                 "; ".join((f"`{k}` enters with sign(s) {v}, the constraint needs {sorted(exp[k])}" if exp[k] else f"`{k}` is not part of the constraint but enters its inequality with sign(s) {v}") for k, v in wrong.items())),
                        construct=f"{sl.fi.qualname}:{lit.name}:term-sign:" + ",".join(sorted(wrong)))
             if lit.kind == "cmp" and lit.strict is not None:
                 bad = None
